@@ -89,11 +89,19 @@ def check(run):
             cal = c.get("callee") or {}
             if cal.get("qn") == "CDNS::BaseCborOutputWriter::write":
                 sink_callers.add(f["qn"])
-    enc_callers = [q for q in sink_callers if q.startswith("CDNS::CdnsEncoder::")]
-    ok = enc_callers == ["CDNS::CdnsEncoder::flush_buffer"]
+    # (a function of the encoder that hands [m_buffer, m_p) to the writer itself and resets the cursor straight afterwards is a flush
+    # site of its own: C06.flush_shaped; such a site reaches the writer through another of its methods, e.g. a gathering write)
+    for f in facts.functions.values():
+        if f.get("cls") == "CDNS::CdnsEncoder" and f.get("body") is not None and f["qn"] != "CDNS::CdnsEncoder::flush_buffer" and \
+                any("m_cos" in show(c.get("recv")) for c in ir.calls_in(f["body"]) if c.get("k") == "MCall" and c.get("recv") is not None):
+            sink_callers.add(f["qn"])
+    enc_callers = sorted(q for q in sink_callers if q.startswith("CDNS::CdnsEncoder::"))
+    extra_sites = [q for q in enc_callers if q != "CDNS::CdnsEncoder::flush_buffer" and not q.endswith("::rotate_output") and
+                   not all(C06.flush_shaped(g_) for g_ in facts.fns(q))]
+    ok = "CDNS::CdnsEncoder::flush_buffer" in enc_callers and not extra_sites
     others = sorted(q for q in sink_callers if not q.startswith("CDNS::CdnsEncoder::"))
     bad = [q for q in others if not (q.startswith("CDNS::CborOutputWriter::") or q.startswith("CDNS::GzipCborOutputWriter::")
-                                     or q.startswith("CDNS::XzCborOutputWriter::"))]
+                                     or q.startswith("CDNS::XzCborOutputWriter::") or q.startswith("CDNS::BaseCborOutputWriter::"))]
     run.ob("R10.3", "sink:flush_buffer-only", ok and not bad, facts.fn("CDNS::CdnsEncoder::flush_buffer"), 0,
            "only CdnsEncoder::flush_buffer hands bytes to the output writer (writer-internal forwarding: %s)" % others if ok and not bad else
            "bytes reach the output writer from %s" % sorted(set(enc_callers) | set(bad)))
